@@ -158,8 +158,8 @@ Definition etail (e : xentry) (comps : list bytes) (p : path) (f : fs) : fs * bo
          else
            dofs f <- replace_existing o f p;
            hard_link f (legacy_source p src) p);
-    let f := apply_perm o e f p in
-    if o_keep_xattr o then lset_xattrs f p (e_xattrs e) else (f, true).
+    dofs f <- (if o_keep_xattr o then lset_xattrs f p (e_xattrs e) else (f, true));
+    (apply_perm o e f p, true).
 
 Definition after_unlink (v : option dnode) : option dnode :=
   match v with Some (DLink _) => None | x => x end.
@@ -297,9 +297,12 @@ Proof.
       + right. split; [exact Hnx|]. intros j. discriminate. }
   destruct HC as (f2 & i & ino0 & EC & S2 & N2 & I2 & X2 & C0 & M0 & T0 & A0 & Hwhich). rewrite EC. cbn [andthen].
   destruct (stage_time o e f2 (out ++ p) _ _ HP S2) as (f3 & n3 & E3 & S3 & U3 & C3 & M3 & X3 & T3). rewrite E3. cbn [andthen].
-  destruct (stage_perm o e f3 (out ++ p) _ _ HP S3) as (n4 & S4 & U4 & C4 & T4 & X4 & M4).
-  destruct (stage_xattr o e (apply_perm o e f3 (out ++ p)) (out ++ p) _ _ HP S4) as (f5 & n5 & E5 & S5 & U5 & C5 & M5 & T5 & X5).
-  rewrite E5. exists f5. split; [reflexivity|].
+  (* extended attributes, then owner + mode *)
+  destruct (stage_xattr o e f3 (out ++ p) _ _ HP S3) as (f4 & n4 & E4 & S4 & U4 & C4 & M4 & T4 & X4).
+  rewrite E4. cbn [andthen].
+  destruct (stage_perm o e f4 (out ++ p) _ _ HP S4) as (n5 & S5 & U5 & C5 & T5 & X5 & M5).
+  set (f5 := apply_perm o e f4 (out ++ p)) in *.
+  exists f5. split; [reflexivity|].
   pose proof (upd_trans _ _ _ _ (upd_trans _ _ _ _ U3 U4) U5) as (UN & UX & UI).
   assert (Hilt : forall j, j < next f -> nget (names f) (out ++ p) <> Some (DFile j) -> j <> i).
   { intros j Hj Hnj ->. destruct Hwhich as [H|[H _]]; [contradiction|lia]. }
@@ -362,8 +365,8 @@ Proof.
   destruct Hd2 as [md2 Hd2].
   assert (L2 : is_link f2 (out ++ p) = false).
   { unfold is_link. rewrite lstat_lit by assumption. rewrite Hd2. reflexivity. }
-  change (e_xattrs e) with (@nil (bytes * bytes)). cbn [lset_xattrs].
-  exists (apply_perm o e f2 (out ++ p)). split; [destruct (o_keep_xattr o); reflexivity|].
+  change (e_xattrs e) with (@nil (bytes * bytes)). cbn [lset_xattrs]. rewrite if_same_x. cbn [andthen].
+  exists (apply_perm o e f2 (out ++ p)). split; [reflexivity|].
   assert (EP : (apply_perm o e f2 (out ++ p) = f2 /\ (o_keep_perm o && c_keep_perm c = false)) \/
                (apply_perm o e f2 (out ++ p) = with_names f2 (nset (names f2) (out ++ p) (DDir (m mod 4096))))).
   { unfold apply_perm. destruct (o_keep_perm o); [|left; split; reflexivity]. subst e. cbn [entry_of e_perm].
@@ -447,8 +450,8 @@ Proof.
   assert (EP : apply_perm o e f3 (out ++ p) = f3).
   { unfold apply_perm. destruct (o_keep_perm o); [|reflexivity]. destruct (e_perm e); [|reflexivity].
     rewrite guarded, L3. reflexivity. }
-  rewrite EP. change (e_xattrs e) with (@nil (bytes * bytes)). cbn [lset_xattrs].
-  exists f3. split; [destruct (o_keep_xattr o); reflexivity|]. split.
+  change (e_xattrs e) with (@nil (bytes * bytes)). cbn [lset_xattrs]. rewrite if_same_x. cbn [andthen]. rewrite EP.
+  exists f3. split; [reflexivity|]. split.
   - eapply (opost_intro f f1 f3 p); try eassumption.
     + intros q Hq Hb. cbn [names f3 with_names]. rewrite nget_nset_other by auto. apply R1; assumption.
     + intros q Hb Hq. cbn [names f3 with_names]. rewrite nget_nset_same, nget_nset_other by auto.
